@@ -1129,5 +1129,13 @@ func main() {
 	writeIfChanged(filepath.Join(out, "Consts.lean"), emitConsts(p))
 	writeIfChanged(filepath.Join(out, "CallOrders.lean"), emitCallOrders(p))
 	writeIfChanged(filepath.Join(out, "LockTraces.lean"), emitLockTraces(p))
+	tr, err := emitTranslated(p)
+	if err != nil {
+		// the source left the subset the translator understands (or a signature it relies on changed): the
+		// generated file then fails to elaborate, which the check reports as a broken obligation
+		tr = "/- GENERATED by extract (translate.go): TRANSLATION FAILED -/\n#eval (panic! " + strconv.Quote(err.Error()) + " : Unit)\nexample : False := by decide -- " + strings.ReplaceAll(err.Error(), "\n", " ") + "\n"
+		fmt.Println("extract: translation failed:", err)
+	}
+	writeIfChanged(filepath.Join(out, "Translated.lean"), tr)
 	fmt.Println("extract: ok")
 }
